@@ -20,7 +20,7 @@ def bounds(tier):
     return {
         "H07a": "one check_received step from an arbitrary memory: 2 senders x 2 channels, key present/absent, old flag, old id 0..0xFFFF, new flag, new id 0..0xFFFF all symbolic; three foreign entries symbolic",
         "H07c": "one datagram (SD / non-SD / truncated; 2 senders x 2 channels) through ServiceDiscoveryProtocol.datagram_received from an arbitrary session memory (every (sender, channel) entry present or absent, flags and ids symbolic): the inductive step at protocol level - covers histories of any length incl. interference between channels and senders",
-        "H07b": "K=%d SD datagrams through ServiceDiscoveryProtocol.datagram_received; per datagram: sender in {P,Q}, channel in {unicast,multicast}, kind in {SD, non-SD method, truncated SD payload}; session id 16-bit symbolic, reboot flag symbolic" % (3 if tier == "thorough" else 2),
+        "H07b": "K=%d SD datagrams through ServiceDiscoveryProtocol.datagram_received; per datagram: sender in {P,Q}, channel in {unicast,multicast}, kind in {SD, non-SD method, truncated SD payload}; session id 16-bit symbolic, reboot flag symbolic" % (4 if tier == "thorough" else 2),
     }
 
 
@@ -30,7 +30,7 @@ def cases(tier, seed):
         for ci in range(2):
             for kind in ("sd", "nonsd", "trunc"):
                 out.append({"h": "H07c", "step": [si, ci, kind]})
-    K = 3 if tier == "thorough" else 2
+    K = 4 if tier == "thorough" else 2
     kinds = ["sd", "sd", "nonsd", "trunc"]  # alphabet per step: (sender, channel, kind)
     import itertools
 
